@@ -498,8 +498,22 @@ def type_map(impl, ids, ast):
       if s.starstarargs:
         m[prefix + (base(f.name), i, "**")] = conv(s.starstarargs.type)
       m[prefix + (base(f.name), i, "ret")] = conv(s.return_type)
+  def pseudo(x):
+    return ("N", "p", ids.id("<%s>" % (x,)))
   def do_cls(prefix, c):
     pre = prefix + (base(c.name),)
+    # layout-level facts of the class, encoded as pseudo types so that they take part in the structural comparison
+    m[pre + ("slots",)] = pseudo(None if c.slots is None else list(c.slots))
+    m[pre + ("decorators",)] = pseudo(sorted(base(d.name) for d in c.decorators))
+    m[pre + ("keywords",)] = pseudo(sorted(k for k, _ in c.keywords))
+    # flags through the is_* properties: MethodFlag.NONE is a real bit (enum.auto() == 1), output.py builds ABSTRACT
+    # and the reader NONE|ABSTRACT, which differ as values but not as flags
+    m[pre + ("members",)] = pseudo((sorted("%s:%s:%d%d%d" % (base(f.name), f.kind.name, f.is_abstract, f.is_final, f.is_coroutine)
+                                           for f in c.methods),
+                                    sorted(base(cc.name) for cc in c.classes)))
+    for kw, v in c.keywords:
+      if isinstance(v, pytd.Type):
+        m[pre + ("keyword", kw)] = conv(v)
     for k in c.constants:
       m[pre + ("const", k.name)] = conv(k.type)
     for f in c.methods:
@@ -1242,8 +1256,10 @@ def check_stub_text(res, impl, ids, text, origin, hist, report, unknown_violatio
         continue
       hist["decl:different"] += 1
       if fps is None:
+        def show(t):
+          return ids.s(t[2]) if t[0] == "N" and ids.s(t[2]).startswith("<") else repr(t)
         unknown_violation("decl-diff:" + decl_cause(path, ma[path], mb[path]), "declaration %r re-read with a different type" % (path,),
-                          dict(replay, path=repr(path), printed=repr(ma[path]), reread=repr(mb[path])))
+                          dict(replay, path=repr(path), printed=show(ma[path]), reread=show(mb[path])))
       else:
         for fp in fps:
           report(fp, "declaration re-read with a different type", dict(replay, path=repr(path)))
@@ -1299,29 +1315,69 @@ def build_stub(r, gen, impl, ids, tvars, env):
       first = {pytd.MethodKind.METHOD: "self", pytd.MethodKind.CLASSMETHOD: "cls"}.get(kind)
     sigs = tuple(sig(cls, first) for _ in range(r.choice([1, 1, 1, 2])))
     return pytd.Function(fresh("f"), sigs, kind)
+  need_meta = [False]
   def klass(depth=0):
     name = fresh("C")
     bases = []
+    keywords = []
     k = r.random()
-    if k < 0.3:
+    if k < 0.15:
       bases.append(pytd.GenericType(pytd.NamedType("typing.Generic"), (pytd.TypeParameter(r.choice(tvars)),)))
-    elif k < 0.6:
+    elif k < 0.25:
+      tv = r.sample(tvars, 2)
+      bases.append(pytd.GenericType(pytd.NamedType("typing.Generic"), tuple(pytd.TypeParameter(t) for t in tv)))
+    elif k < 0.33:
+      bases.append(pytd.GenericType(pytd.NamedType("typing.Generic"), (pytd.TypeParameter(r.choice(tvars)),)))
+      bases.append(pytd.NamedType("typing.Protocol"))
+    elif k < 0.55:
       bases.append(g.to_pytd(ids, ("G", ("p", ids.id("list")), [("N", "p", 10)])))
-    methods = []
-    for _ in range(r.choice([0, 1, 2, 3])):
-      kind = r.choice([pytd.MethodKind.METHOD, pytd.MethodKind.METHOD, pytd.MethodKind.CLASSMETHOD,
-                       pytd.MethodKind.STATICMETHOD])
-      methods.append(func(name, kind))
-    consts = [pytd.Constant(fresh("v"), g.to_pytd(ids, ty())) for _ in range(r.choice([0, 1, 2]))]
-    if r.random() < 0.4:
-      consts.append(pytd.Constant(fresh("p"), pytd.Annotated(g.to_pytd(ids, ty(1)), ("'property'",))))
-    classes = (klass(depth + 1),) if depth < 1 and r.random() < 0.25 else ()
-    return pytd.Class(name=name, keywords=(), bases=tuple(bases), methods=tuple(methods), constants=tuple(consts),
-                      classes=classes, decorators=(), slots=None, template=())
+    elif k < 0.62:
+      bases.append(pytd.NamedType("Foo"))
+      bases.append(pytd.NamedType("Bar"))
+    if r.random() < 0.12:
+      keywords.append(("metaclass", pytd.NamedType("Meta")))
+      need_meta[0] = True
+    decorators = ()
+    if r.random() < 0.15:
+      decorators = (pytd.Alias("final", pytd.NamedType("typing.final")),)
+    # __slots__: absent, empty, one, several
+    slots = r.choice([None, None, None, None, None, (), (), ("x",), ("a", "b", "c")])
+    shape = r.random()
+    methods, consts, classes = [], [], ()
+    if shape < 0.12:
+      pass                                   # nothing but the header (and possibly __slots__)
+    else:
+      for _ in range(r.choice([0, 1, 2, 3])):
+        kind = r.choice([pytd.MethodKind.METHOD, pytd.MethodKind.METHOD, pytd.MethodKind.CLASSMETHOD,
+                         pytd.MethodKind.STATICMETHOD])
+        f = func(name, kind)
+        q = r.random()
+        if q < 0.12:
+          f = f.Replace(flags=pytd.MethodFlag.ABSTRACT)
+        elif q < 0.22:
+          f = f.Replace(flags=pytd.MethodFlag.FINAL)
+        methods.append(f)
+      consts = [pytd.Constant(fresh("v"), g.to_pytd(ids, ty()), pytd.AnythingType() if r.random() < 0.3 else None)
+                for _ in range(r.choice([0, 1, 2]))]
+      if r.random() < 0.4:
+        consts.append(pytd.Constant(fresh("p"), pytd.Annotated(g.to_pytd(ids, ty(1)), ("'property'",))))
+      classes = (klass(depth + 1),) if depth < 2 and r.random() < 0.3 else ()
+      if classes and r.random() < 0.5:
+        # an alias to the nested class is emitted as a constant of type[Outer.Nested]
+        consts.append(pytd.Constant(fresh("al"), pytd.GenericType(
+            pytd.NamedType("type"), (pytd.NamedType(name + "." + classes[0].name),))))
+    return pytd.Class(name=name, keywords=tuple(keywords), bases=tuple(bases), methods=tuple(methods),
+                      constants=tuple(consts), classes=classes, decorators=decorators, slots=slots, template=())
   try:
     consts = tuple(pytd.Constant(fresh("k"), g.to_pytd(ids, ty())) for _ in range(r.choice([0, 1, 2, 3])))
     funcs = tuple(func() for _ in range(r.choice([0, 1, 2, 3])))
-    classes = tuple(klass() for _ in range(r.choice([0, 1, 1, 2])))
+    classes = tuple(klass() for _ in range(r.choice([0, 1, 1, 2, 3])))
+    if classes and r.random() < 0.3:
+      # an alias to a class is emitted as a constant of type[C]
+      consts += (pytd.Constant(fresh("Al"), pytd.GenericType(pytd.NamedType("type"), (pytd.NamedType(classes[0].name),))),)
+    if need_meta[0]:
+      classes += (pytd.Class(name="Meta", keywords=(), bases=(pytd.NamedType("type"),), methods=(), constants=(),
+                             classes=(), decorators=(), slots=None, template=()),)
     aliases = tuple(pytd.Alias(fresh("A"), g.to_pytd(ids, ("G", ("p", ids.id("list")), [ty()])))
                     for _ in range(r.choice([0, 0, 1])))
   except AssertionError:
